@@ -167,8 +167,20 @@ func (s *symEnv) bytesOf(v ssa.Value) (lin, bool) {
 
 // run walks the blocks of path p in order. start gives initial values for
 // the phis of the first block (nil: resolve nothing).
+// symRunWith is symRun with some byte-slice values (parameters) pre-bound.
+func symRunWith(p *pathx.Path, pre map[ssa.Value]lin) *symEnv {
+	return symRunInit(p, nil, pre)
+}
+
 func symRun(p *pathx.Path, init func(phi *ssa.Phi) (lin, bool)) *symEnv {
+	return symRunInit(p, init, nil)
+}
+
+func symRunInit(p *pathx.Path, init func(phi *ssa.Phi) (lin, bool), pre map[ssa.Value]lin) *symEnv {
 	s := &symEnv{ints: map[ssa.Value]lin{}, bytes: map[ssa.Value]lin{}}
+	for k, v := range pre {
+		s.bytes[k] = v
+	}
 	var pred *ssa.BasicBlock
 	for bi, b := range p.Blocks {
 		// phis first, simultaneously
@@ -226,6 +238,22 @@ func symRun(p *pathx.Path, init func(phi *ssa.Phi) (lin, bool)) *symEnv {
 			if !ok {
 				continue
 			}
+			if f := call.Call.StaticCallee(); f != nil && symHelper != nil && isByteSlice(call.Type()) {
+				if d, argIdx, ok := symHelper(f); ok && argIdx < len(call.Call.Args) {
+					if base, okb := s.bytesOf(call.Call.Args[argIdx]); okb {
+						s.bytes[call] = base.add(d, 1)
+						s.last = call
+						continue
+					}
+				}
+			}
+			if dst, _, n, isAU := appendUintN(call); isAU {
+				if base, okb := s.bytesOf(dst); okb {
+					s.bytes[call] = base.add(lconst(n), 1)
+					s.last = call
+				}
+				continue
+			}
 			bl, ok := call.Call.Value.(*ssa.Builtin)
 			if !ok || bl.Name() != "append" || len(call.Call.Args) != 2 || !isByteSlice(call.Type()) {
 				continue
@@ -255,6 +283,11 @@ func symRun(p *pathx.Path, init func(phi *ssa.Phi) (lin, bool)) *symEnv {
 	return s
 }
 
+// symHelper gives, for a helper that appends to its byte-slice parameter and
+// returns the result, the number of bytes it appends on its loop-free path
+// (set by the rule that owns the Ctx).
+var symHelper func(f *ssa.Function) (delta lin, argIdx int, ok bool)
+
 type encoder struct {
 	name     string
 	fn       *ssa.Function
@@ -267,7 +300,7 @@ type encoder struct {
 // findEncoder locates the remaining-length encoding loop in fn:
 // l := uint(size); for ; l > 0x7f; l >>= 7 { append(byte(l|0x80)) }; append(byte(l))
 func (c *Ctx) findEncoder(fn *ssa.Function) (*ssa.Phi, ssa.Value, string) {
-	for _, b := range fn.Blocks {
+	for _, b := range c.regionBlocks(fn) {
 		for _, ins := range b.Instrs {
 			phi, ok := ins.(*ssa.Phi)
 			if !ok || len(phi.Edges) != 2 {
@@ -290,7 +323,7 @@ func (c *Ctx) findEncoder(fn *ssa.Function) (*ssa.Phi, ssa.Value, string) {
 			for _, r := range *phi.Referrers() {
 				switch x := r.(type) {
 				case *ssa.BinOp:
-					if x.Op == token.GTR && x.X == phi && isK(x.Y, 0x7f) {
+					if x.X == phi && (x.Op == token.GTR && isK(x.Y, 0x7f) || x.Op == token.GEQ && isK(x.Y, 0x80)) {
 						condOK = true
 					}
 					if x.Op == token.OR && x.X == phi && isK(x.Y, 0x80) {
@@ -311,13 +344,77 @@ func (c *Ctx) findEncoder(fn *ssa.Function) (*ssa.Phi, ssa.Value, string) {
 			case !tailOK:
 				why = "final byte is not byte(l)"
 			}
-			return phi, stripConv(init), why
+			size := stripConv(init)
+			// the encoder may live in a helper extracted from fn: map its
+			// parameter back to the argument at the (single) call site in fn
+			if pr, isParam := size.(*ssa.Parameter); isParam && pr.Parent() != fn {
+				for _, cb := range fn.Blocks {
+					for _, ci := range cb.Instrs {
+						if call, ok := ci.(*ssa.Call); ok && call.Call.StaticCallee() == pr.Parent() {
+							for i, p := range pr.Parent().Params {
+								if p == pr && i < len(call.Call.Args) {
+									size = stripConv(call.Call.Args[i])
+								}
+							}
+						}
+					}
+				}
+			}
+			return phi, size, why
 		}
 	}
 	return nil, nil, "no remaining-length loop (l; l>>7) found"
 }
 
 func (c *Ctx) codEnc(which map[string]bool) {
+	memo := map[*ssa.Function]*struct {
+		d   lin
+		idx int
+		ok  bool
+	}{}
+	symHelper = func(f *ssa.Function) (lin, int, bool) {
+		if m, ok := memo[f]; ok {
+			return m.d, m.idx, m.ok
+		}
+		r := &struct {
+			d   lin
+			idx int
+			ok  bool
+		}{}
+		memo[f] = r
+		if !c.isNewHelper(f) {
+			return lin{}, 0, false
+		}
+		idx := -1
+		for i, p := range f.Params {
+			if isByteSlice(p.Type()) && idx < 0 {
+				idx = i
+			}
+		}
+		if idx < 0 {
+			return lin{}, 0, false
+		}
+		for _, p := range c.Paths("COD-6", f) {
+			if p.Start != f.Blocks[0] || p.End != pathx.KReturn {
+				continue
+			}
+			env := symRun(p, nil)
+			env2 := &symEnv{ints: env.ints, bytes: map[ssa.Value]lin{f.Params[idx]: lsym("base")}}
+			_ = env2
+			// re-run with the parameter bound
+			envB := symRunWith(p, map[ssa.Value]lin{f.Params[idx]: lsym("base")})
+			res := p.Events[len(p.Events)-1].Results
+			if len(res) == 0 {
+				continue
+			}
+			if l, ok := envB.bytesOf(res[0]); ok {
+				r.d, r.idx, r.ok = l.add(lsym("base"), -1), idx, true
+				return r.d, r.idx, r.ok
+			}
+		}
+		return lin{}, 0, false
+	}
+	defer func() { symHelper = nil }()
 	pm := c.constInt("packetMax")
 	sm := c.constInt("stringMax")
 	encs := []*encoder{
@@ -357,8 +454,18 @@ func (c *Ctx) codEnc(which map[string]bool) {
 						continue
 					}
 					if stripConv(bo.X) == size {
-						// and the test dominates the encoder
-						if bo.Block().Dominates(phi.Block()) {
+						// and the test dominates the encoder (or the call of the helper that holds it)
+						at := phi.Block()
+						if at.Parent() != e.fn {
+							for _, cb := range e.fn.Blocks {
+								for _, ci := range cb.Instrs {
+									if call, ok := ci.(*ssa.Call); ok && call.Call.StaticCallee() == at.Parent() {
+										at = cb
+									}
+								}
+							}
+						}
+						if bo.Block().Dominates(at) {
 							okG = true
 						}
 					}
@@ -483,6 +590,13 @@ func (c *Ctx) cod6(e *encoder) {
 		for _, b := range p.Blocks {
 			if b == e.lphi.Block() {
 				passes = true
+			}
+			if e.lphi.Parent() != fn {
+				for _, ci := range b.Instrs {
+					if call, ok := ci.(*ssa.Call); ok && call.Call.StaticCallee() == e.lphi.Parent() {
+						passes = true
+					}
+				}
 			}
 		}
 		if !passes {
@@ -657,16 +771,34 @@ func (c *Ctx) cod7(encs []*encoder) {
 			continue
 		}
 		seen := map[string]bool{}
-		for _, b := range e.fn.Blocks {
+		for _, b := range c.regionBlocks(e.fn) {
 			for _, ins := range b.Instrs {
-				bo, ok := ins.(*ssa.BinOp)
-				if !ok || bo.Op != token.SHR || !isK(bo.Y, 8) {
+				var arg ssa.Value
+				var pos token.Pos
+				switch x := ins.(type) {
+				case *ssa.BinOp:
+					if x.Op != token.SHR || !isK(x.Y, 8) {
+						continue
+					}
+					a, ok := builtinCall(x.X, "len")
+					if !ok {
+						continue
+					}
+					arg, pos = a, x.Pos()
+				case *ssa.Call:
+					_, val, n, ok := appendUintN(x)
+					if !ok || n != 2 {
+						continue
+					}
+					a, ok := builtinCall(val, "len")
+					if !ok {
+						continue
+					}
+					arg, pos = a, x.Pos()
+				default:
 					continue
 				}
-				arg, ok := builtinCall(bo.X, "len")
-				if !ok {
-					continue
-				}
+				bo := posHolder{pos}
 				x := canon(arg)
 				if seen[x] {
 					continue
@@ -724,6 +856,33 @@ func (c *Ctx) validatedInFunc(fn *ssa.Function, arg ssa.Value) bool {
 		}
 	}
 	return false
+}
+
+type posHolder struct{ p token.Pos }
+
+func (h posHolder) Pos() token.Pos { return h.p }
+
+// regionBlocks: the blocks of fn and of the new helpers it calls (helpers
+// extracted from it after the rules were written).
+func (c *Ctx) regionBlocks(fn *ssa.Function) []*ssa.BasicBlock {
+	out := append([]*ssa.BasicBlock(nil), fn.Blocks...)
+	seen := map[*ssa.Function]bool{fn: true}
+	var walk func(f *ssa.Function, d int)
+	walk = func(f *ssa.Function, d int) {
+		if d > 3 {
+			return
+		}
+		for _, g := range c.staticCallees(f) {
+			if seen[g] || !c.isNewHelper(g) {
+				continue
+			}
+			seen[g] = true
+			out = append(out, g.Blocks...)
+			walk(g, d+1)
+		}
+	}
+	walk(fn, 0)
+	return out
 }
 
 var _ = load.FuncName
